@@ -42,6 +42,11 @@ CLAIMED = {
             "Trusted: the two-table model of Appendix D.5; two script-level corners the statement does not settle re-synchronise the model from the real tables (invariants still checked).",
             "deterministic simulation: seeded registration/removal histories with refused operations vs two-table reference model, full table equality after every step",
             "DESIGN.md section 3 C15, Appendix D.5"),
+    "C12": ("exploration",
+            "Seeded operation histories over arrays, maps and sets behind handles with dangling, never-existing, look-alike and wrong-kind handles as the faults, plus an inner command of a script-implemented operation made to fail by the decorator; after every step every live collection is re-read in full through public commands and compared with a Vec/BTreeMap/BTreeSet model, and the handle table size with the live count. Thin fault space, said plainly.",
+            "Trusted: the model table of Appendix D.4; order of map_keys/set_to_array unconstrained; after an injected inner failure one half-built result collection is tolerated in the handle table.",
+            "deterministic simulation: seeded operation histories with dangling/wrong-kind handles and injected inner command errors vs per-handle reference collections, full re-read after every step",
+            "DESIGN.md section 3 C12, Appendix D.4"),
     "C13": ("fault_enumeration",
             "Per sampled program the halt flag is raised at EVERY depth-0 instruction boundary of the (300-step-bounded) unhalted run and at every applicable position inside the in-flight instruction (before the command body, after it, during its on_error handler, from a nested invocation); each halted execution must be the exact prefix of the unhalted one: same events, no further top-level instruction started, Ok result, variables as after the in-flight instruction. Exhaustive in the halt position per program, sampled over programs. A quarter of the runs instead raise the flag from a second thread under shuttle's seeded random / PCT scheduler (exploration).",
             "Trusted: the decorator's depth bookkeeping (depth 0 = runner's own instruction, handler invocation classified by following an Error end), shuttle's serialisation of the two threads, handle names normalised by order of first appearance when executions are compared. Stubbed: harness commands, OS scheduler (mode B).",
